@@ -158,3 +158,140 @@ func paramOrigin(v ssa.Value) *ssa.Parameter {
 	}
 	return nil
 }
+
+// contentOrigin: the parameter whose CONTENT v carries — like paramOrigin, but it also looks through copies
+// (bytes.Clone, slices.Clone, append(<fresh empty slice>, x...)) and through cells that are re-assigned, as long as
+// every assignment carries the content of the same parameter (`k = bytes.Clone(k)`).
+func contentOrigin(v ssa.Value) *ssa.Parameter {
+	return contentOriginRec(v, map[ssa.Value]bool{})
+}
+
+func contentOriginRec(v ssa.Value, seen map[ssa.Value]bool) *ssa.Parameter {
+	if v == nil || seen[v] {
+		return nil
+	}
+	seen[v] = true
+	switch x := v.(type) {
+	case *ssa.Parameter:
+		return x
+	case *ssa.ChangeType:
+		return contentOriginRec(x.X, seen)
+	case *ssa.Call:
+		switch CalleeKey(x) {
+		case "bytes.Clone", "slices.Clone":
+			if len(x.Call.Args) == 1 {
+				return contentOriginRec(x.Call.Args[0], seen)
+			}
+		case "builtin.append":
+			if len(x.Call.Args) == 2 {
+				if sl, ok := x.Call.Args[0].(*ssa.Slice); ok {
+					if _, fresh := sl.X.(*ssa.Alloc); fresh {
+						return contentOriginRec(x.Call.Args[1], seen)
+					}
+				}
+				if c, ok := x.Call.Args[0].(*ssa.Const); ok && c.IsNil() {
+					return contentOriginRec(x.Call.Args[1], seen)
+				}
+			}
+		}
+		return nil
+	case *ssa.UnOp:
+		if x.Op != token.MUL {
+			return nil
+		}
+		cell := rootCell(x.X)
+		al, ok := cell.(*ssa.Alloc)
+		if !ok {
+			return nil
+		}
+		var origin *ssa.Parameter
+		okAll, n := true, 0
+		for _, f := range closuresOf(al.Parent()) {
+			eachInstr(f, func(s Site) {
+				st, ok := s.Instr.(*ssa.Store)
+				if !ok || !isCell(st.Addr) || rootCell(st.Addr) != ssa.Value(al) {
+					return
+				}
+				n++
+				sub := map[ssa.Value]bool{}
+				for k := range seen {
+					sub[k] = true
+				}
+				delete(sub, v) // a re-assignment may read the cell itself: k = clone(k)
+				po := func() *ssa.Parameter {
+					// reading the same cell inside the stored value resolves to the other stores
+					if ld, isLd := stripClone(st.Val).(*ssa.UnOp); isLd && ld.Op == token.MUL && rootCell(ld.X) == ssa.Value(al) {
+						return origin
+					}
+					return contentOriginRec(st.Val, sub)
+				}()
+				if po == nil {
+					if ld, isLd := stripClone(st.Val).(*ssa.UnOp); isLd && ld.Op == token.MUL && rootCell(ld.X) == ssa.Value(al) {
+						return // self-copy: decided by the other stores
+					}
+					okAll = false
+					return
+				}
+				if origin != nil && origin != po {
+					okAll = false
+				}
+				origin = po
+			})
+		}
+		if n == 0 || !okAll {
+			return nil
+		}
+		return origin
+	}
+	return nil
+}
+
+// stripClone removes copy calls around v.
+func stripClone(v ssa.Value) ssa.Value {
+	for {
+		c, ok := v.(*ssa.Call)
+		if !ok {
+			return v
+		}
+		switch CalleeKey(c) {
+		case "bytes.Clone", "slices.Clone":
+			if len(c.Call.Args) == 1 {
+				v = c.Call.Args[0]
+				continue
+			}
+		}
+		return v
+	}
+}
+
+// isCopyOf: v is (after look-through of cells) the result of a copying call.
+func isCopy(v ssa.Value) bool {
+	switch x := v.(type) {
+	case *ssa.Call:
+		switch CalleeKey(x) {
+		case "bytes.Clone", "slices.Clone":
+			return true
+		case "builtin.append":
+			if len(x.Call.Args) == 2 {
+				if sl, ok := x.Call.Args[0].(*ssa.Slice); ok {
+					_, fresh := sl.X.(*ssa.Alloc)
+					return fresh
+				}
+			}
+		}
+	case *ssa.UnOp:
+		if x.Op == token.MUL && isCell(x.X) {
+			vals, unk := reachingStores(x)
+			if unk || len(vals) == 0 {
+				return false
+			}
+			for _, sv := range vals {
+				if !isCopy(sv) {
+					return false
+				}
+			}
+			return true
+		}
+	}
+	return false
+}
